@@ -147,8 +147,10 @@ theorem mkCell_ok (r : Region) (cell : List Rat) (m' : Mesh) (h : Mesh.mkCell? r
         · cases h
         · split at h
           · cases h
-          · injection h with h
-            rw [← h, toLower_empty]
+          · split at h
+            · cases h
+            · injection h with h
+              rw [← h, toLower_empty]
 
 theorem div_div_self_nat (e : Rat) (n : Nat) (he : e ≠ 0) (hn : 0 < n) : e / (e / (n : Rat)) = (n : Rat) := by
   have : (n : Rat) ≠ 0 := by exact_mod_cast (Nat.pos_iff_ne_zero.mp hn)
